@@ -33,6 +33,8 @@ type fzLine struct {
 	Cost   int64  `json:"cost"`
 	Reads  int    `json:"reads"`
 	Writes int    `json:"writes"`
+	Grow   int    `json:"grow"` // bytes by which the frame's memory grew during this instruction
+	Fwd    int64  `json:"fwd"`  // gas handed to the frame this (call-family) instruction entered: part of its reported cost, not a payment for work
 }
 
 // workRec records, per instruction, the state reads/writes performed until the next callback of the same frame.
@@ -51,13 +53,23 @@ type openStep struct {
 	cost          int64
 	reads, writes int
 	nested        bool
+	msize         int
+	fwd           int64
 }
 
-func (w *workRec) close(d int) {
+// close ends the instruction open at depth d; msize is the frame's memory size now (-1: unknown, the frame is gone)
+func (w *workRec) close(d int, msize int) {
 	if d < len(w.open) && w.open[d].valid {
 		o := w.open[d]
+		grow := 0
+		if msize >= 0 && msize > o.msize {
+			grow = msize - o.msize
+		}
 		if !o.nested {
-			w.lines = append(w.lines, fzLine{K: "work", Run: w.run, Op: o.op, Cost: o.cost, Reads: w.cs.Reads - o.reads, Writes: w.cs.Writes - o.writes})
+			w.lines = append(w.lines, fzLine{K: "work", Run: w.run, Op: o.op, Cost: o.cost, Reads: w.cs.Reads - o.reads, Writes: w.cs.Writes - o.writes, Grow: grow})
+		} else if grow > 0 {
+			// an instruction that entered a frame: its state reads are not its own, its memory growth is
+			w.lines = append(w.lines, fzLine{K: "work", Run: w.run, Op: o.op, Cost: o.cost, Grow: grow, Fwd: o.fwd})
 		}
 		w.open[d].valid = false
 	}
@@ -67,29 +79,33 @@ func (w *workRec) CaptureTxEnd(uint64)   {}
 func (w *workRec) CaptureStart(env *vm.EVM, from, to common.Address, create bool, input []byte, gas uint64, value *big.Int) {
 	w.starts++
 }
-func (w *workRec) CaptureEnd([]byte, uint64, error) { w.close(1) }
+func (w *workRec) CaptureEnd([]byte, uint64, error) { w.close(1, -1) }
 func (w *workRec) CaptureEnter(typ vm.OpCode, from, to common.Address, input []byte, gas uint64, value *big.Int) {
 	w.enters++
 	for d := range w.open {
 		if w.open[d].valid {
+			if !w.open[d].nested && d == w.depth && typ != vm.CREATE && typ != vm.CREATE2 {
+				w.open[d].fwd = clamp(gas)
+			}
 			w.open[d].nested = true // the instruction spans a nested frame: its reads are not its own
 		}
 	}
 }
 func (w *workRec) CaptureExit([]byte, uint64, error) {}
 func (w *workRec) CaptureFault(pc uint64, op vm.OpCode, gas, cost uint64, scope *vm.ScopeContext, depth int, err error) {
-	w.close(depth)
+	w.close(depth, -1)
 }
 func (w *workRec) CaptureState(pc uint64, op vm.OpCode, gas, cost uint64, scope *vm.ScopeContext, rData []byte, depth int, err error) {
 	for len(w.open) <= depth+1 {
 		w.open = append(w.open, openStep{})
 	}
-	w.close(depth + 1)
-	w.close(depth)
+	w.close(depth+1, -1)
+	w.close(depth, scope.Memory.Len())
+	w.depth = depth
 	if err != nil || len(w.lines) > 3000 {
 		return
 	}
-	w.open[depth] = openStep{valid: true, op: int(op), cost: clamp(cost), reads: w.cs.Reads, writes: w.cs.Writes}
+	w.open[depth] = openStep{valid: true, op: int(op), cost: clamp(cost), reads: w.cs.Reads, writes: w.cs.Writes, msize: scope.Memory.Len()}
 }
 
 func fzRun(p *gen.Program, fork string, jpOn bool, name string) []fzLine {
@@ -170,6 +186,8 @@ func fuzzCmd(args []string) int {
 	for i := 0; i < *n; i++ {
 		progs = append(progs, g.Next(i))
 	}
+	// every memory-expanding instruction with windows of 64 KiB .. 4 MiB, at a small and a large gas limit (C20: growth must be paid for)
+	progs = append(progs, gen.MemGrow()...)
 	files := make([]*os.File, *batches)
 	encs := make([]*json.Encoder, *batches)
 	var fnames []string
